@@ -137,8 +137,16 @@ class Handler(BaseHTTPRequestHandler):
                 return self._send(200, (h + '  donn\xe9es \xfc.bin\n').encode('latin-1'), headers=[
                     ('Content-Type', 'text/plain; charset=ISO-8859-1' if beh == 'latin1' else 'application/octet-stream')])
             return self._send(200, (h + '  file.bin\n').encode())
-        if beh in ('404', 'exhausted'):
-            return self._send(404 if beh == '404' else 500, b'error')
+        if beh in ('404', 'exhausted', '503', '502'):
+            return self._send({'404': 404, 'exhausted': 500, '503': 503, '502': 502}[beh], b'error')
+        rng_h = self.headers.get('Range')
+        if sc.get('range') and rng_h and rng_h.startswith('bytes='):
+            # a server that honours range requests (resumable downloads)
+            start = int(rng_h[6:].split('-')[0] or 0)
+            body = BODIES[beh]
+            if start >= len(body):
+                return self._send(416, b'', headers=[('Content-Range', 'bytes */%d' % len(body))])
+            return self._send(206, body[start:], headers=[('Content-Range', 'bytes %d-%d/%d' % (start, len(body) - 1, len(body)))])
         if sc.get('gzip') and 'gzip' in (self.headers.get('Accept-Encoding') or ''):
             import gzip
             z = gzip.compress(BODIES[beh])
@@ -223,6 +231,11 @@ def run_shard(desc, ctx):
             extra.append({'data': dd, 'md5': 'multi', 'prior': pr, 'good': 'good', 'head': 'ok'})
             extra.append({'data': dd, 'md5': 'correct', 'prior': pr, 'good': 'good', 'head': 'ok', 'conditional': True})
             extra.append({'data': dd, 'md5': 'correct', 'prior': pr, 'good': 'good', 'head': 'ok', 'outpath': 'link_dotdot'})
+    # gateway errors (502 / 503) are HTTP errors like any other; servers that honour Range requests
+    for dd in (['503'], ['502'], ['corrupt', '503'], ['good'], ['corrupt', 'good'], ['corrupt', 'corrupt']):
+        for pr in ('absent', 'valid', 'corrupt'):
+            extra.append({'data': dd, 'md5': 'correct', 'prior': pr, 'good': 'good', 'head': 'ok'})
+            extra.append({'data': dd, 'md5': 'correct', 'prior': pr, 'good': 'good', 'head': 'ok', 'range': True})
     # the published file is empty (zero bytes): an empty local file is then the valid one
     for dd in (['404'], ['corrupt'], ['empty'], ['corrupt', 'empty'], ['corrupt', 'corrupt']):
         for pr in ('absent', 'valid', 'corrupt'):
@@ -285,14 +298,14 @@ def expected(case):
     gets = 0
     d1 = data.pop(0) if data else 'exhausted'
     gets += 1
-    if d1 in ('404', 'exhausted'):
+    if d1 in ('404', 'exhausted', '503', '502'):
         return 'raise', gets, None, verified_all
     v = verify(d1)
     if v is not False:
         return 'return', gets, d1, verified_all and v is True
     d2 = data.pop(0) if data else 'exhausted'
     gets += 1
-    if d2 in ('404', 'exhausted'):
+    if d2 in ('404', 'exhausted', '503', '502'):
         return 'raise', gets, None, verified_all
     v = verify(d2)
     if v is False:
@@ -358,6 +371,8 @@ def run_case(case, ctx, shared=None):
         sc['conditional'] = True
     if case.get('md5_delay'):
         sc['md5_delay'] = case['md5_delay']
+    if case.get('range'):
+        sc['range'] = True
     with State.lock:
         State.scripts[path] = sc
         if mirror:
